@@ -231,13 +231,36 @@ def cond_like(facts, key, _seen=None):
     return ok
 
 
+def cond_until(facts, key):
+    """a crate-local helper without a boolean result that returns ONLY after the condition closure it was given returned
+    true (e.g. `fn yield_until(cond) { while !cond() { yield_now() } }`)"""
+    b = facts.bodies.get(key)
+    if b is None or b.j.get('def_kind') not in ('Fn', 'AssocFn'):
+        return False
+    cache = facts.__dict__.setdefault('_conduntil', {})
+    if key in cache:
+        return cache[key]
+    cache[key] = False
+    if not any(n in FN_CALLS for n in b.callee_names()):
+        return False
+    if b.locals[0]['ty'] != '()':
+        return False
+    removed, ncond = cond_true_edges(b, None)
+    if ncond == 0:
+        return False
+    reach = b.reachable(0, removed_edges=removed)
+    ok = not any(b.blocks[x]['term']['k'] == 'return' for x in reach)
+    cache[key] = ok
+    return ok
+
+
 def is_cond_call(facts, t):
     if t['k'] != 'call' or not t.get('fn'):
         return False
     n = canon(t['fn']['path'])
     if n in FN_CALLS:
         return True
-    if facts is not None and t['fn'].get('local') and cond_like(facts, t['fn']['path']):
+    if facts is not None and t['fn'].get('local') and (cond_like(facts, t['fn']['path']) or cond_until(facts, t['fn']['path'])):
         return True
     return False
 
@@ -250,6 +273,12 @@ def cond_true_edges(body, facts=None):
     for bi in body.normal_blocks():
         t = body.blocks[bi]['term']
         if not is_cond_call(facts, t):
+            continue
+        if facts is not None and t.get('fn') and t['fn'].get('local') and canon(t['fn']['path']) not in FN_CALLS and cond_until(facts, t['fn']['path']):
+            # returning from such a helper IS the observation that the condition held
+            ncond += 1
+            if t.get('target') is not None:
+                removed.add((bi, t['target']))
             continue
         # callee object must be the first argument of spin_cond (the closure parameter)
         a0 = t['args'][0] if t['args'] else None
